@@ -31,6 +31,7 @@ EXPLANATION += ' Round 11: (R11) the frame limit of the session codec is not bel
 EXPLANATION += ' (R12, round 12) = C16.R15 (no per-document memo in the store outlives the document) and C08.R3 (the range fingerprint is the xor-fold over the range scan, whatever was asked before).'
 EXPLANATION += ' (R13, round 12) = C08.R6: the range count that decides the recursion anchor is the number of rows of the range scan.'
 EXPLANATION += " (R14, round 12) = C06.R4's failing-body rows: entries accepted before an unrelated request failed are still there to be reconciled."
+EXPLANATION += " (R15, round 14) = C02.R15: an implementation's override of put / get_range_len is evaluated on the default's table."
 
 
 def r1(ctx):
@@ -644,6 +645,13 @@ def r14(ctx):
     from . import C06
     C06.share_failing_body(ctx, "C01.R14")
 
+def r15(ctx):
+    """"the merge of the two starting sets under the document's newest-wins and prefix-deletion rules": the admission rule both sides
+    apply is the evaluated one also when an implementation overrides the trait's default put / get_range_len (= C02.R15)"""
+    from . import C02
+    C02.overrides(ctx, "C01.R15")
+    ctx.floor("C01.R15", 1)
+
 def run(ctx):
     ctx.run_rule("C01.R1", r1)
     ctx.run_rule("C01.R2", r2)
@@ -659,3 +667,4 @@ def run(ctx):
     ctx.run_rule("C01.R12", r12)
     ctx.run_rule("C01.R13", r13)
     ctx.run_rule("C01.R14", r14)
+    ctx.run_rule("C01.R15", r15)
